@@ -57,6 +57,32 @@ A0 = [
 ]
 
 
+# Transform-sensitive fragments: text that a "harmless" normalisation would change (typographic spaces inside a citation,
+# decomposed accents, ligatures, characters whose case mapping changes length, full-width digits). Offsets and token text
+# must refer to the caller's text, not to a normalised copy of it.
+TS = [
+    "410 U.S.\u00a0113",
+    "Id.\u2009at 5",
+    "Pen\u0303a v. Jose\u0301, ",
+    "\ufb01",
+    "\u0130",
+    "\uff11 U.S. \uff11",
+    "\u00a7\u00a05",
+    "e\u0301 ",
+]
+TS_CORE = A0[:16] + ["Foo v. Bar, 1 U.S. 1, 5 (1999). ", "Bar, 1 U.S. at 5. "]
+
+
+def ts_documents(depth=3):
+    """Every concatenation of <= depth fragments of TS_CORE + TS that contains at least one TS fragment."""
+    alpha = TS_CORE + TS
+    n0 = len(TS_CORE)
+    for L in range(1, depth + 1):
+        for idx in itertools.product(range(len(alpha)), repeat=L):
+            if any(i >= n0 for i in idx):
+                yield "".join(alpha[i] for i in idx)
+
+
 def shards_for(alphabet, depth, prefix_len=1):
     """Shard descriptors: every prefix of length < prefix_len as a leaf-only shard plus every
     prefix of length == prefix_len as a subtree shard."""
